@@ -465,7 +465,13 @@ namespace Pistache
 
     std::ostream& operator<<(std::ostream& os, const Address& address)
     {
-        os << address.host() << ":" << address.port();
+        // An IPv6 literal is bracketed, as Address(std::string) expects it and as
+        // RFC 5952 section 6 recommends: "::1:8080" could not be read back
+        if (address.family() == AF_INET6)
+            os << "[" << address.host() << "]";
+        else
+            os << address.host();
+        os << ":" << address.port();
         return os;
     }
 
